@@ -643,8 +643,7 @@ def _r9(model, res, c, collect=None):
     sites = []
     for k, (m, f) in sorted(cg.funcs.items()):
         for n in ast.walk(f) if '.<locals>.' not in k[1] else []:
-            if isinstance(n, ast.Call) and isinstance(n.func, ast.Attribute) and n.func.attr == 'parse' and \
-                    isinstance(n.func.value, ast.Attribute) and n.func.value.attr in cg.yacc_attrs:
+            if cg.is_yacc_parse(f, n):
                 # the text is ply's first parameter, ``input``
                 text_arg = n.args[0] if n.args else next((kw.value for kw in n.keywords if kw.arg == 'input'), None)
                 if text_arg is not None:
